@@ -44,6 +44,55 @@ theorem C07_from_nfa_valid (n : AV.NFA σ α) (hv : n.validate = .ok ()) :
   rw [DFA.validate_eq_ok]
   exact expand_wf _ _ (subset_expandHyp n _) (fun u _ => subsetSucc_keys_sub wf u)
 
+/-- The subset DFA has the shape of a value built from Python sets and dicts, and its BFS
+is exhaustive (used by the corollaries below). -/
+theorem C07_from_nfa_pyShape (n : AV.NFA σ α) (ps : n.PyShape) : n.toDFA.PyShape :=
+  expand_pyShape _ _ (subset_expandHyp n _) ps.syms_nodup
+
+/-- **Subset construction, `retain_names=False, minify=False`**: the states are renamed by
+their BFS discovery index; the result is still a valid DFA with the language of the NFA. -/
+theorem C07_from_nfa_renumbered (n : AV.NFA σ α) (hv : n.validate = .ok ()) (ps : n.PyShape) :
+    n.toDFA.renumber.validate = .ok () ∧ ∀ w, n.toDFA.renumber.accepts w = n.accepts w := by
+  have wfD := (DFA.validate_eq_ok _).mp (C07_from_nfa_valid n hv)
+  refine ⟨(DFA.validate_eq_ok _).mpr (renumber_wf wfD), fun w => ?_⟩
+  rw [renumber_accepts wfD, C07_from_nfa_lang n hv ps]
+
+/-- What the C05 development establishes about `_minify` (Proofs/MinifySpec.lean: under
+`MinHyp`, from `HopcroftCorrect`): the quotient is a valid DFA accepting the language of the
+refinement system it was given. -/
+def MinifyCoreSpec {τ : Type} [DecidableEq τ] (kept : List τ) (syms : List α)
+    (trans : List (τ × List (α × τ))) (init : τ) (finals : List τ) (pick : List Nat → Nat) : Prop :=
+  (DFA.minifyCore kept syms trans init finals pick).validate = .ok () ∧
+  ∀ w, (DFA.minifyCore kept syms trans init finals pick).accepts w =
+    DFA.mfin finals (DFA.mrun kept trans (some init) w)
+
+/-- `_expand_dfa(minify=True)` calls `_minify` on arguments that satisfy its preconditions. -/
+theorem C07_from_nfa_minHyp (n : AV.NFA σ α) (hv : n.validate = .ok ()) (ps : n.PyShape) :
+    DFA.MinHyp n.toDFA.states n.toDFA.syms n.toDFA.trans n.toDFA.init n.toDFA.finals := by
+  have wf := (NFA.validate_eq_ok n).mp hv
+  exact expand_minHyp _ _ (subset_expandHyp n _) ps.syms_nodup (fun u _ => subsetSucc_keys_sub wf u)
+
+/-- **Subset construction, `minify=True`** (both `retain_names` settings: the model compares
+names up to isomorphism), for every pop order `pick` of the Hopcroft loop — *relative to*
+the correctness of `_minify` on these arguments (C05, proved in the C05 development from
+`MinHyp`, which is discharged here by `C07_from_nfa_minHyp`). -/
+theorem C07_from_nfa_min_partial (n : AV.NFA σ α) (hv : n.validate = .ok ()) (ps : n.PyShape)
+    (pick : List Nat → Nat)
+    (hC05 : DFA.MinHyp n.toDFA.states n.toDFA.syms n.toDFA.trans n.toDFA.init n.toDFA.finals →
+      MinifyCoreSpec n.toDFA.states n.toDFA.syms n.toDFA.trans n.toDFA.init n.toDFA.finals pick) :
+    (n.toDFAMin pick).validate = .ok () ∧ ∀ w, (n.toDFAMin pick).accepts w = n.accepts w := by
+  obtain ⟨h1, h2⟩ := hC05 (C07_from_nfa_minHyp n hv ps)
+  have wfD := (DFA.validate_eq_ok _).mp (C07_from_nfa_valid n hv)
+  refine ⟨h1, fun w => ?_⟩
+  show (DFA.minifyCore n.toDFA.states n.toDFA.syms n.toDFA.trans n.toDFA.init n.toDFA.finals pick).accepts w = _
+  rw [h2 w, mlang_eq_accepts wfD, C07_from_nfa_lang n hv ps]
+
+/-- The full statement for `minify=True`, without the C05 hypothesis (not proved in this file). -/
+def C07_from_nfa_min_full : Prop :=
+  ∀ (σ α : Type) [DecidableEq σ] [DecidableEq α] (n : AV.NFA σ α), n.validate = .ok () → n.PyShape →
+    ∀ pick : List Nat → Nat,
+      (n.toDFAMin pick).validate = .ok () ∧ ∀ w, (n.toDFAMin pick).accepts w = n.accepts w
+
 /-! ## B. `NFA.from_dfa` — a DFA viewed as an NFA -/
 
 /-- **`NFA.from_dfa`: the result is a valid NFA** (in particular the initial state has a
@@ -115,5 +164,64 @@ theorem C07_elim_shape (n : AV.NFA σ α) (hv : n.validate = .ok ()) (ps : n.PyS
         t ∈ n.nextStates ((n.closure q).filter fun p => decide (p ≠ q)) a) := by
   have wf := (NFA.validate_eq_ok n).mp hv
   exact ⟨fun q => mem_elim_finals wf q, fun q hq a t => elim_targets_some wf ps hq a t⟩
+
+/-! ## non-vacuity -/
+
+/-- An NFA with an ε-cycle (0 ⇄ 1), a state without a row (2), an unreachable state with an
+empty target set (3), and a row keyed by a name that is not a state (9). -/
+def exN : AV.NFA Nat Nat :=
+  { states := [0, 1, 2, 3], syms := [0, 1],
+    trans := [(0, [(none, [1]), (some 0, [0])]), (1, [(none, [0]), (some 1, [2])]),
+              (3, [(some 0, [])]), (9, [(none, [3])])],
+    init := 0, finals := [2] }
+
+/-- The "second symbol from the end is 1" NFA (its subset DFA needs 4 states). -/
+def exK : AV.NFA Nat Nat :=
+  { states := [0, 1, 2], syms := [0, 1],
+    trans := [(0, [(some 0, [0]), (some 1, [0, 1])]), (1, [(some 0, [2]), (some 1, [2])])],
+    init := 0, finals := [2] }
+
+def exD : AV.DFA Nat Nat :=
+  { states := [0, 1], syms := [0, 1], trans := [(0, [(0, 0), (1, 1)]), (1, [(0, 0)])],
+    init := 0, finals := [1], allowPartial := true }
+
+example : exN.validate = .ok () := by rfl
+example : exK.validate = .ok () := by rfl
+example : exD.validate = .ok () := by rfl
+theorem exN_pyShape : exN.PyShape :=
+  ⟨by decide, by decide, by decide, by decide, by decide, by decide⟩
+theorem exK_pyShape : exK.PyShape :=
+  ⟨by decide, by decide, by decide, by decide, by decide, by decide⟩
+
+example : exN.closure 0 = [0, 1] := by decide
+example : (exN.accepts [1], exN.accepts [0, 0, 1], exN.accepts [0], exN.accepts [1, 1]) =
+    (true, true, false, false) := by decide
+example : (exN.toDFA.states, exN.toDFA.allowPartial) = ([[0, 1], [2]], true) := by decide
+example : (exN.toDFA.accepts [0, 0, 1], exN.toDFA.accepts [1, 1]) = (true, false) := by decide
+example : exN.toDFA.renumber.states = [0, 1] := by decide
+example : exK.toDFA.states.length = 4 := by decide
+example : (exK.toDFA.accepts [1, 0], exK.accepts [1, 0], exK.toDFA.accepts [0, 1]) =
+    (true, true, false) := by decide
+example : (exK.toDFAMin).states.length = 4 := by decide
+
+example : ((NFA.ofDFA exD).accepts [0, 1], (NFA.ofDFA exD).accepts [1, 1]) = (true, false) := by decide
+
+/-- State 1 (only entered by λ-moves) and state 3 become unreachable and are pruned, with
+their rows and the row of the non-state 9. -/
+example : exN.eliminateLambda.states = [0, 2] := by decide
+example : exN.eliminateLambda.trans = [(0, [(some 0, [0]), (some 1, [2])])] := by decide
+example : exN.eliminateLambda.finals = [2] := by decide
+example : (exN.eliminateLambda.accepts [0, 0, 1], exN.eliminateLambda.accepts [0]) = (true, false) := by
+  decide
+
+/-- ε-elimination creates final states: here every state becomes final (0 through the
+in-loop growth or directly, both give the same set). -/
+def exF : AV.NFA Nat Nat :=
+  { states := [0, 1, 2], syms := [0], trans := [(0, [(none, [1])]), (1, [(none, [2]), (some 0, [0])])],
+    init := 0, finals := [2] }
+example : exF.validate = .ok () := by rfl
+example : exF.eliminateLambda.finals = [0, 1, 2] ∧ exF.eliminateLambda.states = [0, 1, 2] ∧
+    exF.eliminateLambda.trans = [(0, [(some 0, [0, 1, 2])]), (1, [(some 0, [0])])] ∧
+    exF.eliminateLambda.accepts [] = true ∧ exF.accepts [] = true := by decide
 
 end AV.Props.C07
